@@ -79,7 +79,7 @@ def main():
             fac = rng.choice(["StlDiscreteTimeSpecification", "StlDiscreteTimeOfflineSpecification"])
             rels = [{"rel": "same_off", "x": 1, "y": 2}]
         cases.append(case([dt_obj(l, S, vs, factory=fac), dt_obj(r_, S, vs, factory=fac)], evs, rels, law=nm, skip=["evaluate.viol"]))
-    # ---- dense time: both sides on the same dense monitor (offline; online with a single update for past laws)
+    # ---- dense time: both sides on the same dense monitor (offline; online for past laws: one update or random partitions into batches)
     dcases = []
     for i in range(n // 2):
         S = rng.choice([1, 2])
@@ -89,7 +89,7 @@ def main():
         cand = [l_ for l_ in laws(p_, q_, a, b, c, d) if l_[0] not in ("since_exp", "until_exp")]
         nm, l, r_, kind = rng.choice(cand)
         vs = sorted(set(vars_of(l) + vars_of(r_)))
-        if not vs or any(q["op"] in BIN2 and not vars_of(q) for q in subformulas(l) + subformulas(r_)):
+        if not vs:
             continue
         end = rng.choice([3, 5, 8])
         w = {v: gen_signal(rng, rng.choice([2, 3, 4, 5]), t0=0, S=S, end=end) for v in vs}
@@ -97,6 +97,12 @@ def main():
         fac = "StlDenseTimeSpecification"
         act = "update" if online else "evaluate"
         evs = [ev_parse(1), ev_parse(2), ev_ct(act, w, 1), ev_ct(act, w, 2)]
+        if online and rng.random() < 0.6:
+            # the two sides fed by (different) partitions of the signals into update() batches
+            import c05 as _c05
+            evs = [ev_parse(1), ev_parse(2)]
+            for k_ in (1, 2):
+                evs += _c05.schedule_events(w, {v: rng.choice(_c05.splits(len(w[v]))) for v in vs}, k_)
         dcases.append(case([ct_obj(l, S, vs, factory=fac), ct_obj(r_, S, vs, factory=fac)], evs, [{"rel": "same_fn", "x": 1, "y": 2}], law=nm))
     dtr = runner.run_cases(dcases)
     dvs, dgen, ddist = core.validate("C18_dense", dtr, module="TraceCt")
